@@ -9,8 +9,12 @@
    `image_wf img`: channel values are bytes and the shape is a window of the backing vector
    (C07's representation relation: any root / crop / transposed view); `nonempty img`:
    width and height are not zero.  `pix_bytes img` = the RGBA bytes of `img.iter()`.
-   `lockstep st s ops`: the terminal reads the bytes of every call of a history; before a call
-   that delivers an error response for id it has lost image id (`pre_store`). *)
+   `lockstep st s ops`: the terminal reads the bytes of every call of a history; every call comes
+   with a flag `lost`: if the call delivers an error response for id, the terminal has lost image
+   id before it (genuine error, lost = true) or still holds it (spurious error) (`pre_store`).
+   `Inv strict st s`: the invariant between handler and terminal; its last clause (every placement
+   names an image the handler counts as transmitted) is claimed for strict = true only, i.e. when
+   every error response was genuine. *)
 From Coq Require Import List Arith NArith Bool Lia.
 From SNT Require Import Surface.Shape Surface.ShapeProofs Image.Kitty Image.KittySpec
   Image.KittyParse Image.KittyProofs Image.KittyHistory Corr.C11Corr Image.KittyCheck
@@ -65,9 +69,9 @@ Proof. exact step_bytes_parse. Qed.
 
 (* hence the terminal side of a call (term_step, which would record error 99 for unparsable bytes)
    is the store run over those commands *)
-Theorem C11_term_step : forall (st : kitty) (s : tstore) (o : op),
+Theorem C11_term_step : forall (lost : bool) (st : kitty) (s : tstore) (o : op),
   cache_wf st -> op_wf o ->
-  term_step st s o = store_run (pre_store o s) (step_items st o).
+  term_step lost st s o = store_run (pre_store lost o s) (step_items st o).
 Proof. exact term_step_items. Qed.
 
 (* ------------------------------------------------------------------------------------------ *)
@@ -76,29 +80,36 @@ Proof. exact term_step_items. Qed.
    no placement of an image it does not hold (ENOENT), no bad chunk, no payload of the wrong
    size --, no chunked transmission is left open, every placement it holds names an image it
    holds, and (once_scan) a call transmits at most one image, and never an id whose pixels were
-   transmitted since the last error response naming that id.  Invariant over histories. *)
-Theorem C11_once_between_errors : forall (quiet : bool) (ops : list op), Forall op_wf ops ->
+   transmitted since the last error response naming that id.  Invariant over histories.  The error
+   responses may be genuine or spurious in any mix (the flag paired with each call). *)
+Theorem C11_once_between_errors : forall (quiet : bool) (ops : list (op * bool)),
+  Forall (fun ol => op_wf (fst ol)) ops ->
   let trace := lockstep (kitty_new quiet) store0 ops in
   Forall (fun s' => t_errs s' = [] /\ t_pending s' = None /\ places_valid s') trace /\
-  once_scan [] (combine (map err_of ops) (map sent_ids trace)) = true.
-Proof. intros quiet ops H. exact (history_ok ops (kitty_new quiet) store0 (inv_init quiet) H). Qed.
+  once_scan [] (combine (map (fun ol => err_of (fst ol)) ops) (map sent_ids trace)) = true.
+Proof.
+  intros quiet ops H. apply (history_ok false ops (kitty_new quiet) store0 (inv_init false quiet)).
+  apply Forall_forall. intros ol Hin. rewrite Forall_forall in H. split; [exact (H ol Hin)|discriminate].
+Qed.
 
 (* the same with the hash argument of every call being the content hash of its image (Image/Fnv.v),
    so that "id" above is a function of the content: equal contents share it (C11_same_content_same_id),
    different contents differ in it outside the class id-collision.  NOT claimed: "at most once per
    handler lifetime" -- after an error response naming the id the pixels are sent again, by design. *)
-Theorem C11_once_between_errors_by_content : forall (quiet : bool) (uops : list uop), Forall uop_wf uops ->
-  let ops := map with_hash uops in
+Theorem C11_once_between_errors_by_content : forall (quiet : bool) (uops : list (uop * bool)),
+  Forall (fun ul => uop_wf (fst ul)) uops ->
+  let ops := map (fun ul => (with_hash (fst ul), snd ul)) uops in
   let trace := lockstep (kitty_new quiet) store0 ops in
   Forall (fun s' => t_errs s' = [] /\ t_pending s' = None /\ places_valid s') trace /\
-  once_scan [] (combine (map err_of ops) (map sent_ids trace)) = true.
+  once_scan [] (combine (map (fun ol => err_of (fst ol)) ops) (map sent_ids trace)) = true.
 Proof. exact history_ok_hashed. Qed.
 
 (* the invariant behind it: what the handler counts as transmitted is held by the terminal pixel
    for pixel, and every placement on the terminal names such an image *)
-Theorem C11_invariant : forall (st : kitty) (s : tstore) (o : op), Inv st s -> op_wf o ->
-  Inv (snd (step st o)) (term_step st s o).
-Proof. intros st s o HI Hw. exact (proj1 (step_ok st s o HI Hw)). Qed.
+Theorem C11_invariant : forall (strict lost : bool) (st : kitty) (s : tstore) (o : op),
+  (strict = true -> lost = true) -> Inv strict st s -> op_wf o ->
+  Inv strict (snd (step st o)) (term_step lost st s o).
+Proof. intros strict lost st s o Hsl HI Hw. exact (proj1 (step_ok strict lost st s o Hsl HI Hw)). Qed.
 
 (* ------------------------------------------------------------------------------------------ *)
 (* (pairing) identifiers fit the protocol's range 1..4294967295 (never 0 = "unspecified") *)
@@ -117,19 +128,31 @@ Proof.
   intros p1 p2 H1 H2. split; [apply placement_inverse, H1|apply placement_inj; assumption].
 Qed.
 
-(* draw(img, pos) creates exactly the placement (image_id, placement_id pos) on the terminal and
-   touches no other; erase(img, Some pos) removes exactly that placement; erase(img, None) removes
-   exactly the placements of the image *)
-Theorem C11_pairing_draw : forall (st : kitty) (s : tstore) (img : image) (hash : N) (pos : N * N),
-  Inv st s -> image_wf img -> nonempty img ->
-  places_of (term_step st s (OpDraw img hash pos)) =
+(* draw(img, pos) creates exactly the placement (image_id, placement_id pos) on the terminal; when
+   it had to transmit the pixels the terminal drops, with the old data, the old placements of that
+   id (there are none unless a spurious error response made the handler forget the image); it
+   touches no other placement.  erase(img, Some pos) removes exactly that placement; erase(img, None)
+   removes exactly the placements of the image *)
+Theorem C11_pairing_draw : forall (strict lost : bool) (st : kitty) (s : tstore) (img : image) (hash : N) (pos : N * N),
+  Inv strict st s -> image_wf img -> nonempty img ->
+  places_of (term_step lost st s (OpDraw img hash pos)) =
+  (image_id hash, placement_id pos)
+    :: filter (fun x => negb (pl_eqb x (image_id hash, placement_id pos)))
+         (if cached st hash then places_of s
+          else filter (fun x => negb (fst x =? image_id hash)) (places_of s)).
+Proof. exact draw_places_gen. Qed.
+
+(* with genuine error responses only, a draw touches nothing but its own placement *)
+Theorem C11_pairing_draw_strict : forall (lost : bool) (st : kitty) (s : tstore) (img : image) (hash : N) (pos : N * N),
+  Inv true st s -> image_wf img -> nonempty img ->
+  places_of (term_step lost st s (OpDraw img hash pos)) =
   (image_id hash, placement_id pos)
     :: filter (fun x => negb (pl_eqb x (image_id hash, placement_id pos))) (places_of s).
 Proof. exact draw_places. Qed.
 
-Theorem C11_pairing_erase : forall (st : kitty) (s : tstore) (img : image) (hash : N) (pos : option (N * N)),
-  Inv st s -> image_wf img ->
-  places_of (term_step st s (OpErase img hash pos)) =
+Theorem C11_pairing_erase : forall (strict lost : bool) (st : kitty) (s : tstore) (img : image) (hash : N) (pos : option (N * N)),
+  Inv strict st s -> image_wf img ->
+  places_of (term_step lost st s (OpErase img hash pos)) =
   match pos with
   | Some p => filter (fun x => negb (pl_eqb x (image_id hash, placement_id p))) (places_of s)
   | None => filter (fun x => negb (fst x =? image_id hash)) (places_of s)
@@ -138,9 +161,9 @@ Proof. exact erase_places. Qed.
 
 (* hence: erasing at pos removes what drawing at pos created, keeps every other placement, in
    particular those of the same image drawn at any other position *)
-Theorem C11_pairing : forall (st : kitty) (s : tstore) (img : image) (hash : N) (pos : N * N),
-  Inv st s -> image_wf img -> in_dom pos ->
-  let s' := term_step st s (OpErase img hash (Some pos)) in
+Theorem C11_pairing : forall (strict lost : bool) (st : kitty) (s : tstore) (img : image) (hash : N) (pos : N * N),
+  Inv strict st s -> image_wf img -> in_dom pos ->
+  let s' := term_step lost st s (OpErase img hash (Some pos)) in
   ~ In (image_id hash, placement_id pos) (places_of s') /\
   (forall x, In x (places_of s) -> x <> (image_id hash, placement_id pos) -> In x (places_of s')) /\
   (forall pos', in_dom pos' -> pos' <> pos ->
@@ -234,13 +257,14 @@ Check C11_payload : forall (img : image) (hash : N) (pos : N * N) (st : kitty),
   N.of_nat (length (pix_bytes img)) = im_width img * im_height img * 4 /\
   (forall s, t_pending s = None ->
      store_run s tx = store_add_image id (mkTimage (im_width img) (im_height img) (pix_bytes img)) s).
-Check C11_once_between_errors : forall (quiet : bool) (ops : list op), Forall op_wf ops ->
+Check C11_once_between_errors : forall (quiet : bool) (ops : list (op * bool)),
+  Forall (fun ol => op_wf (fst ol)) ops ->
   let trace := lockstep (kitty_new quiet) store0 ops in
   Forall (fun s' => t_errs s' = [] /\ t_pending s' = None /\ places_valid s') trace /\
-  once_scan [] (combine (map err_of ops) (map sent_ids trace)) = true.
-Check C11_pairing : forall (st : kitty) (s : tstore) (img : image) (hash : N) (pos : N * N),
-  Inv st s -> image_wf img -> in_dom pos ->
-  let s' := term_step st s (OpErase img hash (Some pos)) in
+  once_scan [] (combine (map (fun ol => err_of (fst ol)) ops) (map sent_ids trace)) = true.
+Check C11_pairing : forall (strict lost : bool) (st : kitty) (s : tstore) (img : image) (hash : N) (pos : N * N),
+  Inv strict st s -> image_wf img -> in_dom pos ->
+  let s' := term_step lost st s (OpErase img hash (Some pos)) in
   ~ In (image_id hash, placement_id pos) (places_of s') /\
   (forall x, In x (places_of s) -> x <> (image_id hash, placement_id pos) -> In x (places_of s')) /\
   (forall pos', in_dom pos' -> pos' <> pos ->
@@ -296,7 +320,8 @@ Proof. vm_compute. repeat split; reflexivity. Qed.
 
 (* a history: draw twice, error response, draw again -> transmitted, not, re-transmitted, not *)
 Example C11_once_nonvacuous :
-  let ops := [OpDraw ex_img ex_hash (0, 0); OpDraw ex_img ex_hash (5, 7);
+  let ops := map (fun o => (o, true))
+             [OpDraw ex_img ex_hash (0, 0); OpDraw ex_img ex_hash (5, 7);
               OpEvent (EvKitty 900477109 (Some 458758) true); OpDraw ex_view 77 (5, 7);
               OpErase ex_img ex_hash (Some (0, 0)); OpDraw ex_img ex_hash (1, 1)] in
   map sent_ids (lockstep (kitty_new true) store0 ops) = [[900477109]; []; [900477109]; [78]; []; []] /\
@@ -309,14 +334,26 @@ Example C11_once_nonvacuous :
      [(900477109, 65538); (78, 458758); (900477109, 458758)]].
 Proof. vm_compute. split; reflexivity. Qed.
 
+(* spurious error responses (the terminal still holds image and placements): the handler sends the
+   pixels again, the terminal replaces the image and with it drops its older placements *)
+Example C11_spurious_errors_nonvacuous :
+  let ops := [(OpDraw ex_img ex_hash (0, 0), true); (OpDraw ex_img ex_hash (5, 7), true);
+              (OpEvent (EvKitty 900477109 (Some 458758) true), false);
+              (OpEvent (EvKitty 900477109 None true), false); (OpDraw ex_img ex_hash (1, 1), true)] in
+  map sent_ids (lockstep (kitty_new true) store0 ops) = [[900477109]; []; [900477109]; []; [900477109]] /\
+  map places_of (lockstep (kitty_new true) store0 ops) =
+    [[(900477109, 1)]; [(900477109, 458758); (900477109, 1)]; [(900477109, 458758)];
+     [(900477109, 458758)]; [(900477109, 65538)]].
+Proof. vm_compute. split; reflexivity. Qed.
+
 (* a case meeting the hypotheses of C11_model_meets_predicate_outside_known_classes: two images (one a strided view),
    draws, erases, an error response with and without placement, an OK response, another event *)
 Example C11_model_meets_predicate_nonvacuous :
   let imgs : list c11_img := [(ex_img, ex_hash, 0%nat); (ex_view, 77, 1%nat)] in
   let contents := [content_rec ex_img; content_rec ex_view] in
   let ops := [CDraw 0 (0, 0); CDraw 1 (0, 0); CDraw 0 (5, 7); CErase 0 (Some (0, 0));
-              CResp 900477109 (Some 458758) true; CResp 78 None true; CDraw 1 (65535, 65534);
-              CResp 78 None false; COther; CErase 1 None] in
+              CResp 900477109 (Some 458758) true true; CResp 78 None true false; CDraw 1 (65535, 65534);
+              CResp 78 None false true; COther; CErase 1 None] in
   (forall img h c, In (img, h, c) imgs -> image_wf img /\ nth_error contents c = Some (content_rec img)) /\
   (forall i1 h1 c1 i2 h2 c2, In (i1, h1, c1) imgs -> In (i2, h2, c2) imgs ->
      (c1 = c2 <-> image_id h1 = image_id h2)) /\
